@@ -74,6 +74,18 @@ def _mk_server():
     async def custom_none(message, session_id):
         return None, None
 
+    async def custom_ack(message, session_id):
+        # serves the request and the notification form alike; the unified class accepts a null id
+        from chuk_mcp.protocol.messages.json_rpc_message import JSONRPCMessage
+        return JSONRPCMessage.create_response(getattr(message, "id", None), {"ack": True}), None
+
+    async def custom_stray(message, session_id):
+        if getattr(message, "id", None) is None:
+            return {"stray": "object"}, None
+        return ph.create_response(message.id, {"custom": True}), None
+
+    ph.register_method("custom/ack", custom_ack)
+    ph.register_method("custom/stray", custom_stray)
     ph.register_method("custom/ok", custom_ok)
     ph.register_method("custom/raises", custom_raises)
     ph.register_method("custom/nonsense", custom_nonsense)
@@ -214,6 +226,8 @@ METHOD_CLASSES = {
     "resReadRaises": "resources/read",
     "resReadUnknown": "resources/read",
     "customOk": "custom/ok",
+    "customAck": "custom/ack",
+    "customStray": "custom/stray",
     "customRaises": "custom/raises",
     "customNonsense": "custom/nonsense",
     "customNone": "custom/none",
